@@ -61,7 +61,7 @@ def efficiency_bin(G, local=False):
             #	E[u]=np.sum(e)/(k*k-k)	#local efficiency computation
 
             # find pairs of neighbors
-            V, = np.where(np.logical_or(G[u, :], G[u, :].T))
+            V, = np.where(np.logical_or(G[u, :], G[:, u].T))
             # inverse distance matrix
             e = distance_inv(G[np.ix_(V, V)])
             # symmetrized inverse distance matrix
